@@ -5,7 +5,7 @@ variant the proto assigns to them.  A reader that "corrects" a recorded value (c
 archive - the tests stay green - but scans seeds with other parameters than the archive was cut with, so nothing is reused
 (C06), or reports other settings than were requested (C11), or mis-decodes archives of other writers (C17).
 """
-from ..facts import callee_q
+from ..facts import callee_q, rv_places, rv_operands
 from ..terms import Terms, simplify, has_call, has_field, show, walk
 
 ARCHIVE = 'bitar::archive::Archive'
@@ -78,6 +78,7 @@ def altered(term):
 
 
 def run(facts, cg):
+    from .r_steps import exit_outcomes_from
     T = Terms(facts)
     instances, findings = [], []
 
@@ -169,6 +170,48 @@ def run(facts, cg):
                         finding(b.q, 'enum-dispatch:' + str(vname), 'could not relate the construction of %s to a value of the recorded enum (cannot decide)' % vname)
                     elif sel != set(want):
                         finding(b.q, 'enum-value:' + str(vname), '%s is built for recorded enum value(s) %s; the format assigns it %s' % (vname, sorted(sel), want))
+    # ---- R-READER-WIRING(source-size): the recorded source size is what the output is sized to and what a block device is checked
+    # against *before any chunk has been seen*; it has to be the sum of the chunks the source is rebuilt from (F14).  In the body
+    # that builds the Archive: an (in)equality between the decoded source_total_size and an accumulation over the descriptors'
+    # source_size whose unequal side reaches error exits only, in front of the construction.
+    n_sum = 0
+    for b in facts.bodies.values():
+        if b.generated or not b.id.startswith('bitar::archive::'):
+            continue
+        aggs = [bi for bi in b.live for st in b.blocks[bi]['stmts'] if st['k'] == 'assign' and st['rv']['k'] == 'agg' and st['rv'].get('adt') == ARCHIVE and not st.get('exp')]
+        if not aggs:
+            continue
+        dom = b.dominators()
+        good = []
+        for bi in b.live:
+            t = b.blocks[bi]['term']
+            cands = []
+            if t['k'] == 'call' and 'q' in t['callee'] and callee_q(t).split('::')[-1] in ('eq', 'ne') and len(t['args']) == 2:
+                cands.append((t['args'][0], t['args'][1], callee_q(t).split('::')[-1] == 'ne', t['dest'], t['loc'], succ_of(t)))
+            for st in b.blocks[bi]['stmts']:
+                if st['k'] == 'assign' and not st['pl']['p'] and st['rv']['k'] == 'binop' and st['rv']['op'] in ('Eq', 'Ne'):
+                    cands.append((st['rv']['a'], st['rv']['b'], st['rv']['op'] == 'Ne', st['pl'], st['loc'], bi))
+            for (oa, ob, is_ne, dest, loc, swb) in cands:
+                ta = cut_decoded(simplify(T.resolve_env(simplify(T.of_operand(b, oa)))))
+                tb = cut_decoded(simplify(T.resolve_env(simplify(T.of_operand(b, ob)))))
+                for x, y in ((ta, tb), (tb, ta)):
+                    if has_field(x, 'source_total_size') and not has_field(y, 'source_total_size') and _sums_source_sizes(facts, y):
+                        sw = b.blocks[swb]['term'] if swb is not None else None
+                        if not sw or sw['k'] != 'switch' or sw['op']['k'] not in ('copy', 'move') or sw['op']['pl']['l'] != dest['l']:
+                            continue
+                        t_edge, f_edge = sw['otherwise'], dict(zip(sw['vals'], sw['targets'])).get(0)
+                        uneq = t_edge if is_ne else f_edge
+                        if uneq is not None and exit_outcomes_from(b, uneq) <= {'Err'}:
+                            good.append((swb, loc))
+        ok = [loc for (cb, loc) in good if all(cb in dom.get(a, ()) or cb == a for a in aggs)]
+        n_sum += 1
+        instances.append({'rule': 'R-READER-WIRING(source-size)', 'function': b.q, 'compared_with_sum_of_chunks_at': ok})
+        if not ok:
+            finding(b.q, 'source-size-unchecked', 'the recorded source size is taken over without having been compared with the sum of the chunks the source is rebuilt '
+                    'from: it is what a block device is checked against and what the output is resized to before any chunk has been seen - a too small value lets the clone '
+                    'overwrite a device that cannot hold the source, chunks are written beyond the recorded end')
+    if n_sum < 1:
+        finding('-', 'floor-source-size', 'the construction of the Archive was not found (cannot decide)')
     # a tuple variant handed on as a function value (`.map(Config::BuzHash)`) constructs it just the same
     for b in facts.bodies.values():
         if b.generated or not b.id.startswith('bitar::archive::'):
@@ -195,7 +238,6 @@ def run(facts, cg):
     # (cli.rs refuses only `min > avg`, `max < avg`); a reader whose validation refuses the boundary (`>=` for `>`, a half-open
     # range for a closed one) rejects archives this very tool writes.  For every comparison of two recorded chunker parameters:
     # find the edge that leads to an error on every path and read off whether the two being equal takes it.
-    from .r_steps import exit_outcomes_from
     PARAMS = ('min_chunk_size', 'max_chunk_size', 'rolling_hash_window_size')
     NEG = {'Lt': 'Ge', 'Le': 'Gt', 'Gt': 'Le', 'Ge': 'Lt', 'Eq': 'Ne', 'Ne': 'Eq'}
     n_acc = 0
@@ -247,6 +289,31 @@ def run(facts, cg):
         finding('-', 'floor', 'expected the Archive aggregate, the FilterConfig and three Config variants and a Compression built from the dictionary, '
                 'found %d/%d/%d/%d (cannot decide)' % (n_arch, n_filter, n_cfg, n_comp))
     return instances, findings
+
+
+def succ_of(t):
+    return t.get('t')
+
+
+def _sums_source_sizes(facts, term):
+    """an accumulation (fold / try_fold / sum / a checked_add chain) that reads the descriptors' source_size"""
+    acc = False
+    reads = has_field(term, 'source_size')
+    for n in walk(term):
+        if n[0] == 'call' and n[1].split('::')[-1] in ('fold', 'try_fold', 'sum', 'checked_add', 'try_for_each', 'scan'):
+            acc = True
+        if n[0] == 'acc':
+            acc = True
+        if n[0] == 'closure' and n[1] in facts.bodies:
+            cb = facts.bodies[n[1]]
+            for bi in cb.live:
+                for st in cb.blocks[bi]['stmts']:
+                    if st['k'] == 'assign':
+                        pls = list(rv_places(st['rv'])) + [o['pl'] for o in rv_operands(st['rv']) if o.get('k') in ('copy', 'move')]
+                        for pl in pls:
+                            if any(p.get('k') == 'field' and p.get('n') == 'source_size' for p in pl['p']):
+                                reads = True
+    return acc and reads
 
 
 def selecting_values(b, T, bi, dom, fieldname):
